@@ -355,6 +355,10 @@ def hyp_cases(draw, tier):
     return case
 
 
+# (what round 8 added to the case domain; part of the evidence text)
+RULE_ROUND8 = " Root folders literally named '~', '~verif', '~root', 'r t', scanned through relative path arguments ('name', './name') after chdir, HOME pointing at an empty directory; one case in ten has a folder with 130-260 entries (every seventh a sub-directory); one file in six carries a modification time before 1987 with a sub-microsecond fraction."
+RULE = RULE + RULE_ROUND8
+
 PARTS = [
     Part("directories", run, strategy=lambda tier: hyp_cases(tier), n={"quick": 500, "thorough": 20000}),
 ]
